@@ -456,12 +456,14 @@ class Ctx:
 
 
 def load_known(pid):
-    p = os.path.join(VERIF, "known_findings.json")
+    # source of truth: findings/<pid>.json (committed, never written at run time);
+    # known_findings.json is the merged copy built by tools/mkmanifest.py
+    p = os.path.join(VERIF, "findings", pid + ".json")
     if not os.path.exists(p):
         return []
     with open(p) as f:
         data = json.load(f)
-    return [k for k in data.get("findings", []) if k.get("property") == pid]
+    return [k for k in data.get("findings", []) if k.get("property", pid) == pid]
 
 
 def known_replay_cases(pid):
